@@ -1,8 +1,9 @@
 (* Extraction of the executable models to OCaml.  ExtrOcamlBasic only: N / positive / nat / ascii stay the
    extracted inductive types; the development adds no Extract Constant / Extract Inductive of its own. *)
 Require Import ExtrOcamlBasic.
-From MDK Require Import Base.Prelude Base.BSet Codec.Varint Codec.TlsVec Codec.Utf8 Codec.GroupDataExt.
+From MDK Require Import Base.Prelude Base.BSet Codec.Varint Codec.TlsVec Codec.Utf8 Codec.GroupDataExt Base.AMap Store.Contract.
 Extraction Language OCaml.
 Separate Extraction
   enc_len dec_len utf8_valid
-  GroupDataExt.serialize GroupDataExt.deserialize GroupDataExt.wf GroupDataExt.roundtrip_ok.
+  GroupDataExt.serialize GroupDataExt.deserialize GroupDataExt.wf GroupDataExt.roundtrip_ok
+  Contract.empty Contract.step Contract.run.
